@@ -245,6 +245,12 @@ PathInfo, Gateway, ... - regenerated from the live classes): the validator's tru
 whether a property is set.  A class gaining `__len__` turns this theorem false and the check searches hollow values. -/
 theorem gen_no_falsy_values : genCfg.svcFalsyCapable = [] := by decide
 
+/-- every member of every enum-valued service property (mirror direction: both, receive only, transmit only) reads back from
+a fresh handle as the member that was set (observed on scratch topologies on every run): "set" in `Svc.props` therefore means
+set to whichever valid value, not only to the common one.  A parser that loses a rare member turns this theorem false and the
+check searches services carrying each member. -/
+theorem gen_every_value_readable : Gen.Constraints.svcValuesLost = [] := by decide
+
 theorem gen_hollow_harmless (t : Topo) : ∀ s ∈ t.svcs, ∀ q ∈ s.hollow, q ∉ genCfg.svcFalsyCapable := by
   intro s _ q _; rw [gen_no_falsy_values]; exact List.not_mem_nil
 
